@@ -61,8 +61,9 @@ class Scenario:
     """builds, in lock step, the harness script for the real task over loopback and the event script for the model;
     the replica only tells how many listener notifications / completions to wait for and where to hold the task"""
 
-    def __init__(self, mt):
-        self.cfg = {'cap': 4, 'handles': 1, 'mt': mt, 'rmin': RMS * MS, 'rmax': 2 * RMS * MS}
+    def __init__(self, mt, rms=RMS):
+        self.rms = rms
+        self.cfg = {'cap': 4, 'handles': 1, 'mt': mt, 'rmin': rms * MS, 'rmax': 2 * rms * MS}
         self.sim = cl.Sim(self.cfg)
         self.h = []               # harness steps
         self.m = []               # model steps
@@ -137,6 +138,56 @@ class Scenario:
             self._do(['X'], [('X',)], done=True)
         elif name == 'drop':
             self._do(['H'], [('H',)], done=True)
+        elif name == 'during_wait':
+            # commands that arrive WHILE the task waits before the next attempt (after a failed connect or a lost
+            # connection): a request fails at once, a redundant enable and a decode-level change change nothing, and the
+            # next Connecting comes when the announced delay is over - not earlier
+            if s.ph != 'Waiting' or not self.held:
+                return
+            early = self.rms // 20                                   # well inside the delay (scenario built with a long one)
+            ev = [('T', early * MS)]
+            acts = ['go', f'sleep:{early}']
+            for cmd in arg:
+                if cmd == 'S':
+                    ev.append(('S', self.nid, 'r', TMO * MS, 'f'))
+                    acts.append(f'S:{self.nid}:{TMO}')
+                    self.nid += 1
+                elif cmd == 'E':
+                    ev.append(('E', 'f'))
+                    acts.append('E')
+                else:
+                    ev.append(('L', 'min', 'f'))
+                    acts.append('L')
+            ev += [('T', cl.fires_at(s.until) - s.now - early * MS)] + self.connect_outcome()
+            self.held = False
+            self._do(acts, ev)
+        elif name == 'inject_disabled':
+            # hold the task AT the Disabled notification that follows a disable and inject the next command there
+            if s.ph != 'Idle':
+                return
+            cmd = arg
+            hold_at = s.nl + 1
+            first = [('D', 'f')]
+            second = {'E': [('E', 'f')] + self.connect_outcome(), 'X': [('X',)], 'H': [('H',)], 'S': [('S', self.nid, 'r', TMO * MS, 'f')]}[cmd]
+            pred = copy.deepcopy(s)
+            for e in first + second:
+                pred.apply(e)
+            if pred.ph == 'Waiting':
+                return                                   # would need a second hold while one is pending
+            act = {'E': 'E', 'X': 'X', 'H': 'H', 'S': f'S:{self.nid}:{TMO}'}[cmd]
+            if cmd == 'S':
+                self.nid += 1
+            self.h += [f'hold:{hold_at}', 'D', f'wait:{hold_at}', act, 'go']
+            if pred.nl > hold_at:
+                self.h.append(f'wait:{pred.nl}')
+            if pred.nc > s.nc:
+                self.h.append(f'waitc:{pred.nc}')
+            if pred.ph == 'Done':
+                self.h.append('done')
+            if any(e[0] == 'CO' for e in second):
+                self.conn_mode = self.env
+            self.m += first + second
+            self.sim = pred
         elif name == 'inject':
             # hold the task AT a transition (Connecting / Connected notification) and inject a command there
             at, cmd = arg
@@ -187,7 +238,7 @@ class Scenario:
 
     def finish(self):
         self.h.append('sleep:60')
-        return (f'cap=4 mt={self.cfg["mt"]} rmin={RMS} rmax={2 * RMS} | ' + ' '.join(self.h), (self.cfg, self.m))
+        return (f'cap=4 mt={self.cfg["mt"]} rmin={self.rms} rmax={2 * self.rms} | ' + ' '.join(self.h), (self.cfg, self.m))
 
 
 def gen_loopback(r, n):
@@ -207,6 +258,23 @@ def gen_loopback(r, n):
         [('env', 'serve'), ('inject', ('lN', 'S')), 'shutdown'], [('env', 'refuse'), ('inject', ('lC', 'D')), 'shutdown'],
         [('env', 'refuse'), 'enable', 'shutdown'], [('env', 'refuse'), 'enable', 'drop'], [('env', 'close'), 'enable', 'shutdown'],
         [('env', 'silent'), 'enable', 'submit', 'shutdown'], [('env', 'serve'), 'enable', 'disable', 'disable', 'enable', 'enable', 'drop'],
+    ]
+    # commands during the reconnect delay (long delay so that "during" is robust on a loaded machine)
+    for cmds in (['S'], ['E'], ['L'], ['S', 'E', 'L'], ['L', 'S']):
+        for env2 in ('refuse', 'serve'):
+            sc = Scenario(0, rms=800)
+            for o in [('env', 'refuse'), 'enable', ('during_wait', cmds), ('env', env2), ('during_wait', list(reversed(cmds))), 'shutdown']:
+                sc.op(*((o,) if isinstance(o, str) else o))
+            out.append(sc)
+    sc = Scenario(0, rms=800)
+    for o in [('env', 'close'), 'enable', ('env', 'serve'), ('during_wait', ['S', 'L', 'E']), 'submit', 'drop']:
+        sc.op(*((o,) if isinstance(o, str) else o))
+    out.append(sc)
+    directed += [
+        [('env', 'serve'), 'enable', ('inject_disabled', 'E'), 'submit', 'shutdown'],
+        [('env', 'serve'), 'enable', ('inject_disabled', 'X')], [('env', 'silent'), 'enable', ('inject_disabled', 'H')],
+        [('env', 'serve'), 'enable', ('inject_disabled', 'S'), 'enable', 'submit', 'drop'],
+        [('env', 'serve'), 'enable', ('env', 'close'), ('inject_disabled', 'E'), 'shutdown'],
     ]
     for ops in directed:
         for mt in (0, 2):
@@ -229,8 +297,10 @@ def gen_loopback(r, n):
                 sc.op('retry')
             elif k < 0.9:
                 sc.op('submit')
-            elif k < 0.95:
+            elif k < 0.93:
                 sc.op('inject', (r.choice(['lC', 'lN']), r.choice('DXHS')))
+            elif k < 0.97:
+                sc.op('inject_disabled', r.choice('EXHS'))
             else:
                 sc.op(r.choice(['shutdown', 'drop']))
         sc.op(r.choice(['shutdown', 'drop']))
@@ -259,11 +329,16 @@ def judge_loopback(ctx, items):
     for (ops, line, mcase), i, m in zip(items, impl, mod):
         parts = i.split('|')
         spec, other = [], []
-        if i == 'PANIC' or len(parts) != 5:
+        if i == 'PANIC' or len(parts) != 6:
             spec.append('panic-or-garbled-output')
         else:
-            ls, comp, fin, accepts, tmo = parts
+            ls, comp, fin, accepts, tmo, gaps = parts
             ls = ls.split()
+            gaps = [int(x) for x in gaps.split()]
+            # the next Connecting after a wait state does not come before the announced delay is over
+            for k in range(1, len(ls)):
+                if ls[k] == 'lC' and ls[k - 1][:2] in ('lF', 'lW') and k - 1 < len(gaps) and gaps[k - 1] + 1 < int(ls[k - 1][2:]) // MS:
+                    spec.append('C13.reconnect-attempt-earlier-than-the-announced-delay')
             traces.append(ls)
             if not ls or ls[0] != 'lD' or any(not cl.edge(a, b) for a, b in zip(ls, ls[1:])) or 'lS' in ls[:-1]:
                 spec.append('C13.illegal-listener-path')
@@ -502,7 +577,7 @@ def run(ctx):
     n_loop, ltraces = (0, [])
     n_serial = 0
     if not ctx.replay:
-        n_loop, ltraces = loopback(ctx, 60 if ctx.quick() else 150)
+        n_loop, ltraces = loopback(ctx, 100 if ctx.quick() else 220)
         n_serial = serial(ctx, 40 if ctx.quick() else 150)
     classes = {}
     for c, i in zip(cases, impl):
